@@ -87,6 +87,17 @@ pub fn run(c: &Case, tmp: &std::path::Path) -> Vec<String> {
                 let _ = std::fs::remove_file(&p);
                 std::fs::create_dir_all(&p).unwrap();
             }
+            "corrupt" => {
+                // flip one byte of the first cluster's data of pack #k (inside the range covered by its checksum)
+                let k: usize = l[1].parse().unwrap();
+                let p = file_of(k);
+                let mut b = std::fs::read(&p).unwrap();
+                let pos = if k == 1 && pkg != "one" { 128 + 128 } else { 128 };
+                if pos < b.len() {
+                    b[pos] ^= 0x40;
+                }
+                std::fs::write(&p, b).unwrap();
+            }
             "swap" => {
                 let src = file_of(l[2].parse().unwrap());
                 let dst = file_of(l[1].parse().unwrap());
